@@ -299,7 +299,7 @@ elif drv is None:
     ck.violation("extracted model/driver does not build", {"correspondence": "ocaml/C05_driver.ml", "log": dlog[-2000:]}, no_input=True)
 else:
     impl = run_cases(cases, "main")
-    for i in (0, ncorpus + 7, len(cases) // 2, len(cases) - 1):
+    for i in sorted(set((0, ncorpus + 7, len(cases) // 2, len(cases) - 1))):
         if 0 <= i < len(impl) and i < len(cases):
             samples.append({"case": cases[i], "result": impl[i]})
     if ck.thorough() and not ck.replay and not found:
